@@ -185,8 +185,51 @@ fn names_checks(l: &mut Local, names: &[String], rng: &mut Rng) {
     }
 }
 
+/// the C constructors must accept exactly the 36 names (runs in a child process: a panic inside extern "C" aborts)
+fn capi_names(l: &mut Local, names: &[String], rng: &mut Rng) {
+    let alist = genm::textbook().to_sparse().alist();
+    for n in names {
+        println!("CASE C name {}", n);
+        l.eval();
+        if crate::props::c19::c_decoder_ctor_is_null(alist.as_bytes(), n.as_bytes(), b"") {
+            l.violation("the C decoder constructor rejects a documented implementation name", J::obj().set("name", n.clone()));
+        } else {
+            let mut d = Dig::new();
+            d.s("c").s(n);
+            l.nt(d.get());
+        }
+    }
+    let mut bad: Vec<String> = vec!["".into(), "phif64".into(), "PHIF64".into(), "Phif64 ".into(), " Phif64".into(), "Phif64\n".into(), "\tAminstari8\r\n".into(), "HLAminstari8Jones".into(), "HLPhif64 ".into(), "Phif".into()];
+    for n in names {
+        bad.push(format!("{} ", n));
+        bad.push(format!(" {}", n));
+        bad.push(format!("{}\n", n));
+        bad.push(n.to_lowercase());
+        let mut ch: Vec<char> = n.chars().collect();
+        let i = rng.below(ch.len());
+        ch[i] = if ch[i] == 'x' { 'y' } else { 'x' };
+        bad.push(ch.into_iter().collect());
+    }
+    for s in bad {
+        if names.contains(&s) {
+            continue;
+        }
+        println!("CASE C non-member {:?}", s);
+        l.eval();
+        if !crate::props::c19::c_decoder_ctor_is_null(alist.as_bytes(), s.as_bytes(), b"") {
+            l.violation("the C decoder constructor accepts a string that is not one of the 36 names", J::obj().set("string", s.clone()));
+        }
+        l.count("c_non_member_strings_rejected");
+    }
+}
+
 pub fn run(run: &mut Run) {
-    run.rule = "EXHAUSTIVE over the 36 names of the harness' own table (HL prefix = layered, rest = arithmetic type): parse, display, value_variants, to_possible_value, clap parser; non-member strings (case variants, prefixes, HL + flooding-only names, one-character edits) must be rejected; behaviour: for a family of inputs (directed at f32/f64, Jones, Deg1Clip, partial hard limit, A-Min* vs min*, phi vs tanh saturation, flooding vs layered) the decoder from build_decoder must return exactly what the directly constructed generic decoder returns, and the family must separate every one of the 630 pairs of directly constructed decoders (unseparated pairs are reported inconclusive by name); non-trivial = every name, and every (name,input) on which the direct decoder iterates".into();
+    if run.leg.as_deref() == Some("capi-names") {
+        let names = all_names();
+        run.sub_seq("c-constructor-names", 1, move |l, _i, rng| capi_names(l, &names, rng));
+        return;
+    }
+    run.rule = "EXHAUSTIVE over the 36 names of the harness' own table (HL prefix = layered, rest = arithmetic type): parse, display, value_variants, to_possible_value, clap parser; non-member strings (case variants, prefixes, padding whitespace, HL + flooding-only names, one-character edits) must be rejected by FromStr, by the command-line value parser and by the C decoder constructor (child process); behaviour: for a family of inputs (directed at f32/f64, Jones, Deg1Clip, partial hard limit, A-Min* vs min*, phi vs tanh saturation, flooding vs layered) the decoder from build_decoder must return exactly what the directly constructed generic decoder returns, and the family must separate every one of the 630 pairs of directly constructed decoders (unseparated pairs are reported inconclusive by name); non-trivial = every name, and every (name,input) on which the direct decoder iterates".into();
     run.exhaustive = Some(true);
     let names = all_names();
     let names2 = names.clone();
@@ -273,6 +316,24 @@ pub fn run(run: &mut Run) {
         }
     });
     drop(sigs_m);
+    if run.replay.is_none() && run.leg.is_none() && !cfg!(miri) {
+        // names through the C constructors, in a child process
+        let exe = std::env::current_exe().expect("current_exe");
+        let log = "/verif/target/legs/C18.capi-names.log".to_string();
+        let _ = std::fs::create_dir_all("/verif/target/legs");
+        match std::process::Command::new(exe).args(["C18", "--tier", run.tier.name(), "--seed", &run.seed.to_string(), "--leg", "capi-names"]).env("LV_VERBOSE", "1").output() {
+            Err(e) => run.merged.inconclusive(format!("cannot spawn the C-interface child: {}", e)),
+            Ok(o) => {
+                use std::os::unix::process::ExitStatusExt;
+                let code = o.status.code().unwrap_or_else(|| 128 + o.status.signal().unwrap_or(0));
+                let mut text = String::from_utf8_lossy(&o.stdout).to_string();
+                text.push_str(&String::from_utf8_lossy(&o.stderr));
+                let _ = std::fs::write(&log, &text);
+                let _ = std::fs::write(format!("{}.status", log), format!("{}\n", code));
+                run.integrate_leg("capi-names", &log);
+            }
+        }
+    }
     if run.replay.is_none() {
         // separation of all pairs
         let mut sets: Vec<std::collections::HashSet<u64>> = Vec::new();
